@@ -370,10 +370,12 @@ func (interp *Interpreter) cfg(root *node, sc *scope, importPath, pkgName string
 
 		case commClauseDefault:
 			sc = sc.pushBloc()
+			sc.loop = n.anc.anc // a break leaves the select statement
 			declareLabels(sc, n)
 
 		case commClause:
 			sc = sc.pushBloc()
+			sc.loop = n.anc.anc // a break leaves the select statement
 			declareLabels(sc, n)
 			if len(n.child) > 0 && n.child[0].action == aAssign {
 				ch := n.child[0].child[1].child[0]
